@@ -139,20 +139,19 @@ def _process_step_expression(
             return (new_target_assets, None)
 
         case 'transitive':
-            # The transitive expression is very similar to the field
-            # expression, but it proceeds recursively until no target is
-            # found and it and it sets the new targets to the entire list
-            # of assets identified during the entire transitive recursion.
+            # The transitive expression applies the step expression it
+            # wraps (usually a field, but any expression is allowed, e.g.
+            # `(a \/ b)*` or `v()*`) repeatedly until no new target is found
+            # and it sets the new targets to the entire list of assets
+            # identified along the way.
             # Assets already found are not expanded again, otherwise cyclic
             # or reflexive associations would recurse forever.
             new_target_assets = []
             current_assets = list(target_assets)
             while current_assets:
-                found_assets = []
-                for target_asset in current_assets:
-                    found_assets.extend(model.\
-                        get_associated_assets_by_field_name(target_asset,
-                            step_expression['stepExpression']['name']))
+                (found_assets, _) = _process_step_expression(
+                    lang_graph, model, current_assets,
+                    step_expression['stepExpression'])
                 current_assets = []
                 for asset in found_assets:
                     if not any(known.id == asset.id \
